@@ -40,7 +40,7 @@ func splitLines(content string) []string {
 		raw = raw[:len(raw)-1]
 	}
 	for i := range raw {
-		raw[i] = strings.TrimSuffix(raw[i], "\r")
+		raw[i] = strings.TrimRight(raw[i], "\r")
 	}
 	return raw
 }
@@ -113,8 +113,9 @@ func fmtGen(r *rand.Rand, lane string) *fmtCase {
 	c := &fmtCase{Lane: lane, Balanced: lane == "structured"}
 	nl := "\n"
 	if core.Chance(r, 1, 6) {
-		nl = "\r\n"
+		nl = core.Pick(r, "\r\n", "\r\n", "\r\n", "\r\r\n", "\r\r\r\n")
 	}
+	crMix := core.Chance(r, 1, 12) // single lines end in one to three extra carriage returns
 	ind := func() string {
 		return core.Pick(r, "", "", "  ", "    ", "\t", " \t ", "      ", " ")
 	}
@@ -235,7 +236,18 @@ func fmtGen(r *rand.Rand, lane string) *fmtCase {
 			lines = append(lines, sb.String())
 		}
 	}
+	if crMix {
+		for i := range lines {
+			lines[i] += core.Pick(r, "", "", "\r", "\r\r", "\r\r\r")
+		}
+	}
 	s := strings.Join(lines, nl)
+	if len(lines) > 0 && core.Chance(r, 1, 16) {
+		// a UTF-8 byte order mark in front of the first line (which then is an ordinary entry for compiler and formatter alike)
+		if t := strings.TrimLeft(lines[0], " \t"); !strings.HasPrefix(t, "##!>") && !strings.HasPrefix(t, "##!<") && !strings.HasPrefix(t, "##!=") {
+			s = "\ufeff" + s
+		}
+	}
 	if len(lines) > 0 {
 		switch r.Intn(5) {
 		case 0: // missing final newline
@@ -561,7 +573,7 @@ func init() {
 		ID:    "C09",
 		Level: "exploration",
 		Rule: "generated .ra byte contents in three lanes — structured (balanced blocks, every directive kind with random indentation, inner spacing, CRLF, header already present/partial/double, EOF variants), hostile (near-miss directives, unbalanced markers, lint triggers) and bytes (fragments) — plus pinned edge files (empty, white-space only, header only) are formatted by the built CLI 3 times with --check before and after (one structured file in twelve has 150..500 lines, i.e. is well above 4 KiB); plus trees of six files (rule files, exclude/, include/) in which at most one file, at a PRNG-chosen position of the walk, is not canonical: format --check --all (text and github) must fail exactly then, format --all must leave every file equal to the layout model. " +
-			"Oracle: f(f(x)) = f(x) = f^3(x) byte-wise; --check exit 0 iff f(x) = x and never writes (tree snapshot); header+blank line at the top, exactly one final newline, no CR at line ends, flag/prefix/suffix lines at column 0; for structured cases the output must equal an independent line model of the canonical layout byte for byte. Non-trivial = >= 2 lines and format changed the file. Domain: line terminators are LF or CRLF (no stray CR).",
+			"Oracle: f(f(x)) = f(x) = f^3(x) byte-wise; --check exit 0 iff f(x) = x and never writes (tree snapshot); header+blank line at the top, exactly one final newline, no CR at line ends, flag/prefix/suffix lines at column 0; for structured cases the output must equal an independent line model of the canonical layout byte for byte. Non-trivial = >= 2 lines and format changed the file. Line terminators are LF, CRLF, or LF behind up to four carriage returns (also mixed within a file); one file in sixteen starts with a UTF-8 byte order mark.",
 		Cases: func(env *core.Env, rng *rand.Rand) []core.Case {
 			cs := fmtCases(env, rng, 1000, 8000)
 			for i, n := 0, env.N(150, 1500); i < n; i++ {
